@@ -391,6 +391,19 @@ def run(ctx):
                         ctx.case(("mixed-neighbour", op, pair))
                         if got:
                             reqs.append(got)
+    # a bintime duration at the ends of the hightime / datetime ranges (+-10^9 days: the first value the other family cannot hold, the
+    # last one it can, their neighbours by a tick) against values of those families: the answer is still the exact order
+    for days in (10**9, -999999999, -10**9, 999999999):
+        for dtick in (-2, -1, 0, 1, 2, T64, -T64):
+            a = ((days * 86400) << 64) + dtick
+            for kind, lo, hi, scale in (("htTd", tv.HT_TD_MIN, tv.HT_TD_MAX, 10**24), ("dtTd", tv.DT_TD_MIN, tv.DT_TD_MAX, 10**6)):
+                for other in (hi, lo, 0, 86400 * scale, hi - 1, lo + 1):
+                    for op in ("lt", "le", "eq", "gt", "ge"):
+                        for pair in ((("btTd", a), (kind, other)), ((kind, other), ("btTd", a))):
+                            got = check_mixed(ctx, op, pair[0], pair[1], tv)
+                            ctx.case(("mixed-range-end", op, pair))
+                            if got:
+                                reqs.append(got)
     # mixed sums and differences whose exact result lies on, just inside and just outside the ends of the 128-bit range
     for (op, lk, rk), want_kind in sorted(RESULT_KIND.items()):
         if want_kind != "btTd" or op not in SIGN or "Dt" in lk + rk:
